@@ -124,7 +124,7 @@ def run_shard(spec, ctx, acc):
             for nodes in byte_probes(t, ctx["tier"], ctx["seed"]):
                 case = {"kind": "layout", "mode": t.mode, "clsid": t.clsid, "defname": t.defname, "bf": bf,
                         "nodes": nodes, "prelude": [], "via_reader": None}
-                o = check(case)
+                o = core.checked(check, case)
                 o.classes = list(o.classes) + ["byte-probe"]
                 if core.handle(acc, o, case, known) and len(acc.violations) >= core.MAX_VIOL_PER_SHARD:
                     break
@@ -247,7 +247,7 @@ def check(case) -> core.Out:
         import logging
 
         out.classes = list(out.classes) + ["via-reader"]
-        logging.disable(logging.CRITICAL)
+        core.log_off()
         try:
             pre = b""
             if len(payload) >= 3 and (payload[0] + len(payload)) % 2 == 0:
@@ -257,8 +257,10 @@ def check(case) -> core.Out:
                 pre = codec.ubx_frame(clsid[0:1], clsid[1:2], codec.fletcher_twin(payload, sum(payload), payload[-1]))
                 if payload[1] % 2:
                     pre += codec.nmea_frame("GNGLL,5327.04319,N,00214.41396,W,223232.00,A,A")
-            rd = pyubx2.UBXReader(io.BytesIO(pre + frame), msgmode=mode, parsebitfield=bf,
-                                  validate=case["via_reader"], quitonerror=2 if not pre else 0)
+            from vp.props import streamlib as S
+
+            rd = S.mk_reader(io.BytesIO(pre + frame), {"msgmode": mode, "parsebitfield": bf, "validate": case["via_reader"],
+                                                       "quitonerror": 2 if not pre else 0})
             if pre:
                 m2 = ([p for r, p in rd if r == frame] or [None])[-1]
             else:
@@ -269,7 +271,7 @@ def check(case) -> core.Out:
         except Exception as err:  # noqa
             out.viol.append((key + f"reader-raises:{type(err).__name__}", repr(err)[:200]))
         finally:
-            logging.disable(logging.NOTSET)
+            core.log_on()
     if catalog.has_ch(t.defn) and len(payload) == 0 and not actual:
         out.viol.append((key.rsplit("bf=", 1)[0] + "empty-CH",
                          "zero-length text payload: attribute not exposed"))
